@@ -270,6 +270,6 @@ PROPS["C13"] = {
     "assumptions": ["the race detector sees every conflicting access pair that actually executes without a happens-before edge"],
 }
 
-HOOK_COMMITS = ["7ca683e", "9610f73", "33713cb", "e8dcaea", "0cda325", "7eac750", "b30f8ba"]
+HOOK_COMMITS = ["7ca683e", "9610f73", "33713cb", "e8dcaea", "0cda325", "7eac750", "b30f8ba", "9835da3"]
 
 NOT_APPLICABLE = {}
